@@ -4,6 +4,7 @@ import (
 	"fmt"
 
 	pb "github.com/xuperchain/xupercore/bcs/ledger/xledger/xldgpb"
+	"github.com/xuperchain/xupercore/verifshim/vhook"
 )
 
 // Universe3Way: three branches from genesis plus a fork at a1.
@@ -176,5 +177,68 @@ func UniverseC12() *Universe {
 	b.Raw("sB1", BuildTx(TxSpec{Initiator: "B", Ins: []In{{Tx: root, Offset: 1}}, Outs: []Out{{To: "A", Amount: "1000"}}, Nonce: "sB1"}), false)
 	b.Raw("sB2", BuildTx(TxSpec{Initiator: "B", Ins: []In{{Tx: root, Offset: 1}}, Outs: []Out{{To: "C", Amount: "999"}, {To: "$", Amount: "1"}}, Nonce: "sB2"}), false)
 	b.Raw("tC", BuildTx(TxSpec{Initiator: "C", Ins: []In{{Tx: root, Offset: 2}}, Outs: []Out{{To: "D", Amount: "1000"}}, Nonce: "tC"}), false)
+	return b.Done()
+}
+
+// UniverseC13: pool families for the producer check, built at block k1
+// (k1 carries kvA = "put k1 x" by A). Four funded identities.
+//
+//	chain:   c1 (B pays C) <- c2 (C pays D from c1) <- c3 (D pays A from c2)
+//	diamond: d1 (B splits) <- d2, d3 <- d4 (spends d2 and d3)
+//	readers: rD, rC (read k1@kvA), wB (writes k1)       -- reader/writer sharing
+//	wr:      wB, rC2 (reads k1@wB; built after wB)      -- writer then reader of the new version
+//	fees:    fB (B pays fee 3), fC (C pays fee 2), tD (D plain transfer)
+func UniverseC13() *Universe {
+	cfg := DefaultConfig()
+	cfg.Quotas = map[string]string{"A": "1000", "B": "1000", "C": "1000", "D": "1000"}
+	b := NewUniverse("U-c13", cfg, RegisterVKV)
+	root := b.Root()
+	b.At("g")
+	kvA := b.KV("kvA", "A", "put k1 x", []In{{Tx: root, Offset: 0}})
+	b.Block("k1", "M")
+	b.At("k1")
+	raw := func(name string, tx *pb.Transaction) *pb.Transaction { return b.Raw(name, tx, false) }
+	tr := func(name, from string, ins []In, outs []Out) *pb.Transaction {
+		return raw(name, BuildTx(TxSpec{Initiator: from, Ins: ins, Outs: outs, Nonce: name}))
+	}
+	// chain
+	c1 := tr("c1", "B", []In{{Tx: root, Offset: 1}}, []Out{{To: "C", Amount: "1000"}})
+	c2 := tr("c2", "C", []In{{Tx: c1, Offset: 0}}, []Out{{To: "D", Amount: "999"}, {To: "$", Amount: "1"}})
+	tr("c3", "D", []In{{Tx: c2, Offset: 0}}, []Out{{To: "A", Amount: "999"}})
+	// diamond
+	d1 := tr("d1", "B", []In{{Tx: root, Offset: 1}}, []Out{{To: "C", Amount: "400"}, {To: "D", Amount: "600"}})
+	d2 := tr("d2", "C", []In{{Tx: d1, Offset: 0}}, []Out{{To: "A", Amount: "400"}})
+	d3 := tr("d3", "D", []In{{Tx: d1, Offset: 1}}, []Out{{To: "A", Amount: "600"}})
+	tr("d4", "A", []In{{Tx: d2, Offset: 0}, {Tx: d3, Offset: 0}}, []Out{{To: "B", Amount: "998"}, {To: "$", Amount: "2"}})
+	// readers and writer of k1
+	mk := func(name, who, prog string, in In) *pb.Transaction {
+		tx, _, err := b.W.BuildKVTx(who, prog, []In{in}, name)
+		if err != nil {
+			panic(err)
+		}
+		return raw(name, tx)
+	}
+	mk("rD", "D", "get k1", In{Tx: root, Offset: 3})
+	mk("rC", "C", "get k1", In{Tx: root, Offset: 2})
+	wB := mk("wB", "B", "put k1 p1", In{Tx: root, Offset: 1})
+	// reader of the new version: pre-executed with wB pending on the builder
+	if err := b.W.SubmitStrict(CloneTx(wB)); err != nil {
+		panic(err)
+	}
+	mk("rC2", "C", "get k1", In{Tx: root, Offset: 2})
+	mk("wD2", "D", "get k1;put k2 q", In{Tx: root, Offset: 3})
+	// drop the builder's pool again
+	if err := b.W.State.Walk(b.U.ID("g"), false); err != nil {
+		panic(err)
+	}
+	if err := b.W.State.Walk(b.U.ID("k1"), false); err != nil {
+		panic(err)
+	}
+	vhook.Discard()
+	// fee payers
+	tr("fB", "B", []In{{Tx: root, Offset: 1}}, []Out{{To: "A", Amount: "997"}, {To: "$", Amount: "3"}})
+	tr("fC", "C", []In{{Tx: root, Offset: 2}}, []Out{{To: "A", Amount: "998"}, {To: "$", Amount: "2"}})
+	tr("tD", "D", []In{{Tx: root, Offset: 3}}, []Out{{To: "B", Amount: "1000"}})
+	_ = kvA
 	return b.Done()
 }
